@@ -141,12 +141,26 @@ func RunScanLogic(fsys FileSystem, pkgLoader PackageLoader, target string, opts 
 		scannedDeps = deps
 	}
 
-	// Deterministic Sort
+	// Deterministic Sort. The alerts arrive in worker completion order, so a tie
+	// on (function, signature name) must be broken by the alert's own content,
+	// never by its position in the slice.
 	sort.Slice(allAlerts, func(i, j int) bool {
-		if allAlerts[i].MatchedFunction != allAlerts[j].MatchedFunction {
-			return allAlerts[i].MatchedFunction < allAlerts[j].MatchedFunction
+		a, b := allAlerts[i], allAlerts[j]
+		if a.MatchedFunction != b.MatchedFunction {
+			return a.MatchedFunction < b.MatchedFunction
 		}
-		return allAlerts[i].SignatureName < allAlerts[j].SignatureName
+		if a.SignatureName != b.SignatureName {
+			return a.SignatureName < b.SignatureName
+		}
+		if a.SignatureID != b.SignatureID {
+			return a.SignatureID < b.SignatureID
+		}
+		if a.Confidence != b.Confidence {
+			return a.Confidence > b.Confidence
+		}
+		ka, _ := json.Marshal(a)
+		kb, _ := json.Marshal(b)
+		return string(ka) < string(kb)
 	})
 
 	summary := models.ScanSummary{TotalAlerts: len(allAlerts)}
